@@ -304,6 +304,11 @@ func GetUncompressedReadCloser(zstd zstdimpl.ZstdImpl, f *os.File, expectedSize 
 		_ = f.Close()
 		return nil, err
 	}
+	if remainder > int64(len(uncompressedFirstChunk)) {
+		_ = f.Close()
+		return nil, fmt.Errorf("offset %d is beyond the %d bytes in chunk %d",
+			offset, len(uncompressedFirstChunk), chunkNum)
+	}
 
 	if chunkNum == int64(len(h.chunkOffsets)-2) {
 		// Last chunk in the file.
@@ -416,6 +421,11 @@ func GetZstdReadCloser(zstd zstdimpl.ZstdImpl, f *os.File, expectedSize int64, o
 	if err != nil {
 		_ = f.Close()
 		return nil, err
+	}
+	if remainder > int64(len(uncompressedFirstChunk)) {
+		_ = f.Close()
+		return nil, fmt.Errorf("offset %d is beyond the %d bytes in chunk %d",
+			offset, len(uncompressedFirstChunk), chunkNum)
 	}
 
 	chunkToRecompress := uncompressedFirstChunk[remainder:]
